@@ -89,18 +89,24 @@ def renderHex (rd : List UInt8) : List UInt8 :=
 def genericTail (sep rd : List UInt8) : List UInt8 :=
   sep ++ decimal rd.length ++ (if rd.isEmpty then [] else sep ++ renderHex rd)
 
+/-- the labels in wire form, without the root label -/
+def wireLabels (ls : List (List UInt8)) : List UInt8 := ls.flatMap fun l => UInt8.ofNat l.length :: l
+
 /-! ### records and files — the presentation subset of `C23_records_partial`
 
-  One record per line: `[owner] [ttl] [class] TYPEnnn \# len [hex] [;comment]`, fields separated
-  by runs of blanks; the owner is an absolute name in any mix of octet forms, or omitted
-  (leading blanks: same owner as before); TTL and class are written (decimal, `CLASSnnn`) or
-  omitted; blank and comment-only lines in between.  Not in this subset (see C23.lean): relative
-  names and `@`, class-then-TTL order, mnemonics, typed RDATA, parentheses, `$ORIGIN`/`$TTL`,
-  CRLF. -/
+  One entry per line.  Records: `[owner] [ttl] [class] TYPEnnn \# len [hex] [;comment]`, fields
+  separated by runs of blanks; the owner is an absolute name, a relative name (completed with the
+  origin), `@` (the origin) — names in any mix of octet forms — or omitted (leading blanks: same
+  owner as before); TTL and class are written (decimal, `CLASSnnn`) or omitted.  Directives:
+  `$ORIGIN <absolute name>`, `$TTL <decimal>`.  Blank and comment-only lines.  Not in this subset
+  (see C23.lean): class-then-TTL order, mnemonics, typed RDATA, parentheses, CRLF, a last line
+  without newline. -/
 
 inductive POwner where
   | same
   | abs (ls : List PLabel)
+  | rel (ls : List PLabel) (l : PLabel)      -- labels `ls ++ [l]`, no trailing dot
+  | atSign
   deriving Repr, Inhabited
 
 structure PRecord where
@@ -117,14 +123,18 @@ structure PRecord where
 inductive PEntry where
   | blank (ws comment : List UInt8)
   | record (p : PRecord)
+  | origin (ls : List PLabel) (sep trail comment : List UInt8)
+  | ttl (n : Nat) (sep trail comment : List UInt8)
   deriving Repr, Inhabited
 
-def isBlank (c : UInt8) : Bool := c == 32 || c == 9
+def ownerText : POwner → List UInt8
+  | .same => []
+  | .abs ls => renderAbsName ls
+  | .rel ls l => renderLabels (ls ++ [l])
+  | .atSign => [64]
 
 def renderRecord (p : PRecord) : List UInt8 :=
-  (match p.owner with
-   | .same => []
-   | .abs ls => renderAbsName ls) ++ p.sep ++
+  ownerText p.owner ++ p.sep ++
   (match p.ttl with
    | some t => decimal t ++ p.sep
    | none => []) ++
@@ -136,11 +146,16 @@ def renderRecord (p : PRecord) : List UInt8 :=
 def renderEntry : PEntry → List UInt8
   | .blank ws comment => ws ++ comment ++ [10]
   | .record p => renderRecord p
+  | .origin ls sep trail comment =>
+    [36, 79, 82, 73, 71, 73, 78] ++ sep ++ renderAbsName ls ++ trail ++ comment ++ [10]   -- `$ORIGIN`
+  | .ttl n sep trail comment =>
+    [36, 84, 84, 76] ++ sep ++ decimal n ++ trail ++ comment ++ [10]                       -- `$TTL`
 
 def renderFile (es : List PEntry) : List UInt8 := es.flatMap renderEntry
 
-/-- what is carried from record to record (RFC 1035 §5.1, RFC 2308 §4) -/
+/-- what is carried from entry to entry (RFC 1035 §5.1, RFC 2308 §4) -/
 structure SCtx where
+  origin : Option (List UInt8) := none
   prevOwner : Option (List UInt8) := none
   prevTtl : Option Nat := none
   prevClass : Option Nat := none
@@ -160,16 +175,29 @@ structure SRecord where
 /-- RFC 2181 §8: a TTL with the most significant bit set is treated as zero -/
 def ttlValue (t : Nat) : Nat := if t > 2147483647 then 0 else t
 
+def labelLines (ls : List PLabel) : Nat := (ls.map fun l => (l.filter fun x => x.2 = .esc ∧ x.1 = 10).length).sum
+
 /-- newlines inside the owner text (written `\` + newline): the lines a record spans beyond one -/
 def ownerLines : POwner → Nat
   | .same => 0
-  | .abs ls => (ls.map fun l => (l.filter fun x => x.2 = .esc ∧ x.1 = 10).length).sum
+  | .abs ls => labelLines ls
+  | .rel ls l => labelLines (ls ++ [l])
+  | .atSign => 0
 
-/-- the owner a record line denotes: the written absolute name, or the previous owner -/
+/-- the owner a record line denotes: the written absolute name; a relative name completed with
+    the origin (if that fits in 255 octets); the origin for `@`; the previous owner if omitted -/
 def ownerOf (c : SCtx) (p : PRecord) : Option (List UInt8) :=
   match p.owner with
   | .same => c.prevOwner
   | .abs ls => some (wireName (ls.map labelOctets))
+  | .rel ls l =>
+    match c.origin with
+    | some o =>
+      if (wireLabels ((ls ++ [l]).map labelOctets)).length + o.length ≤ 255 then
+        some (wireLabels ((ls ++ [l]).map labelOctets) ++ o)
+      else none
+    | none => none
+  | .atSign => c.origin
 
 /-- the TTL: the written one, else the `$TTL` default, else the previous record's (RFC 2308 §4) -/
 def ttlOf (c : SCtx) (p : PRecord) : Option Nat :=
@@ -196,6 +224,9 @@ def denoteRecord (c : SCtx) (line : Nat) (p : PRecord) : Option (SRecord × SCtx
 def denoteFile : List PEntry → SCtx → Nat → Option (List SRecord)
   | [], _, _ => some []
   | .blank _ _ :: es, c, line => denoteFile es c (line + 1)
+  | .origin ls _ _ _ :: es, c, line =>
+    denoteFile es { c with origin := some (wireName (ls.map labelOctets)) } (line + labelLines ls + 1)
+  | .ttl n _ _ _ :: es, c, line => denoteFile es { c with defaultTtl := some (ttlValue n) } (line + 1)
   | .record p :: es, c, line => do
     let (r, c') ← denoteRecord c line p
     let rest ← denoteFile es c' (line + ownerLines p.owner + 1)
